@@ -1,0 +1,43 @@
+//go:build verif
+
+package cache
+
+// VerifEntry is one SIEVE queue element as seen by the verification harness.
+type VerifEntry[K comparable, V any] struct {
+	Key     K
+	Value   V
+	Visited bool
+}
+
+// VerifDump returns the eviction queue front to back and the key under the clock hand.
+// Compiled only with -tags verif; read-only.
+func (s *Sieve[K, V]) VerifDump() (entries []VerifEntry[K, V], hand *K) {
+	s.rwLock.RLock()
+	defer s.rwLock.RUnlock()
+
+	for e := s.queue.Front(); e != nil; e = e.Next() {
+		key := e.Value.(K)
+		ent := s.store[key]
+		entries = append(entries, VerifEntry[K, V]{Key: key, Value: ent.value, Visited: ent.visited.Load()})
+	}
+
+	if s.hand != nil {
+		key := s.hand.Value.(K)
+		hand = &key
+	}
+
+	return entries, hand
+}
+
+// VerifDump returns a copy of the stored map. Compiled only with -tags verif; read-only.
+func (s *NonExpiringMapCache[K, V]) VerifDump() map[K]V {
+	s.rwLock.RLock()
+	defer s.rwLock.RUnlock()
+
+	out := make(map[K]V, len(s.store))
+	for k, v := range s.store {
+		out[k] = v
+	}
+
+	return out
+}
